@@ -32,6 +32,9 @@ import (
 
 var run *ev.Run
 
+// deadline: own soft wall-clock budget (a tier that does not finish is reported exhaustive:false).
+var deadline time.Time
+
 // ---------- packed histories ----------
 
 // pack: K(2) T(3) Mask(4) Zero(1) Abs(rest). Stored histories carry concrete timestamps (the
@@ -274,7 +277,7 @@ func bfs(cfg config, tot *totals, samples *ev.Samples, stateCap int64) []found {
 				frontier = nil
 				break
 			}
-			if run.Expired() {
+			if run.Expired() || time.Now().After(deadline) {
 				run.Incomplete("wall-clock budget expired in " + cfg.String())
 				next = nil
 				frontier = nil
@@ -380,9 +383,9 @@ func layouts(thorough bool) []*Layout {
 	add(2, 0, 1, 0, 1)
 	if thorough {
 		add(1, 0, 0, 0, 0) // one slot: everything collides
+		add(2, 0, 0, 1, 1)
 		add(2, 0, 0, 0, 1)
 		add(2, 0, 0, 1, 0)
-		add(2, 0, 0, 1, 1)
 		add(2, 0, 1, 1, 0)
 		add(2, 0, 1, 1, 1)
 		add(4, 0, 1, 2, 3) // control: no collision at all
@@ -446,8 +449,14 @@ func main() {
 			cfgs = append(cfgs, config{lay, true, 3, 3})
 		}
 		if thorough {
-			for _, lay := range lays {
-				cfgs = append(cfgs, config{lay, false, 4, 3})
+			// 4 transactions: full key sets (<= 3 keys) on the four most different layouts,
+			// <= 2 keys on the others; slot granularity with <= 2 keys on the two main layouts
+			for i, lay := range lays {
+				k := 2
+				if i < 4 {
+					k = 3
+				}
+				cfgs = append(cfgs, config{lay, false, 4, k})
 			}
 			for _, lay := range lays[:2] {
 				cfgs = append(cfgs, config{lay, true, 4, 2})
@@ -456,9 +465,18 @@ func main() {
 			cfgs = append(cfgs, config{lays[0], false, 4, 2})
 		}
 	}
+	budget := 105 * time.Second
+	if thorough {
+		budget = 28 * time.Minute
+	}
+	deadline = time.Now().Add(budget)
 	stateCap := int64(40_000_000)
 	nviol := 0
 	for _, cfg := range cfgs {
+		if time.Now().After(deadline) {
+			run.Incomplete("wall-clock budget: configuration " + cfg.String() + " not run")
+			continue
+		}
 		vs := bfs(cfg, tot, samples, stateCap)
 		seen := map[string]bool{}
 		for _, f := range vs {
